@@ -227,3 +227,13 @@ package peersync
 //@ property C26 C25
 //@ requires g != nil
 //@ ensures @C25 asks-the-current-policy: result == (g.policy == nil || g.policy.AcceptAllPeers || slices.Contains(g.policy.PeerAllowlist, peer.value))
+
+// ---------------------------------------------------------------------------
+// C27 (advertised rates): the rate peer-sync advertises to a peer is the rate
+// the node would charge that peer (peer-specific, else stored global, else the
+// built-in table) whenever the premium settings can be read.
+// ---------------------------------------------------------------------------
+//@ func (*peerGuard).PremiumRate
+//@ property C27
+//@ requires g != nil
+//@ ensures @C27 advertised-is-charged: (g.premium != nil && !ghost.rateLookupErr) ==> (result != nil && result.ppmValue == premiumRateOf(peer.value, asset, operation))
